@@ -1,310 +1,504 @@
 """C17 — saved curves, functions, conditions and process models load back unchanged (kind S: writer/reader tables)."""
-import ast
+import re
 
-from ..tables import WriterTable, ReaderTable, dict_literal_keys, json_reads, self_attr_chain, norm_path
-from ..structural import type_env
-from ..repo import AnalysisError, FuncInfo, Const
+from ..iotables import writer_slot, slot_kind, reader_refs, Slot, value_text, full_text
+from ..evaluator import analyse
+from ..symeval import Config, key_str, val_key
+from ..procmodel import UNITS, KG
+from ..values import *
+from ..repo import AnalysisError, FuncInfo
 
-EXPL = ("The persistence code is read as a pair of tables. Writer: column -> (field, selector inside an element, series/scalar), "
-        "from the DataFrame literal and the column assignments of save(). Reader: constructor field -> columns with selector and "
-        "shape, following local variables, per-row appends and tuple positions in load()/from_frame(). Decided: W1 the written "
-        "column set equals the declared column constant and every column read is written; W2 field -> column -> field is the "
-        "identity including tuple positions (partial_flux_1 <-> [0] ...); W3 value/unit and value/type pairs are recombined and "
-        "re-normalised (convert to kg with the position's own component, to_weight); W4 side files: name prefix, tuple index and "
-        "loader filter agree, safe/unsafe variants are chosen symmetrically, JSON key sets are equal and key<->field bijective; W5 "
-        "a field written as a series is read as a series; W6 every write of ProcessModel.save targets the directory created with "
-        "exist_ok=False by _generate_process_path.")
+EXPL = ("The persistence code is evaluated by the normal-form evaluator with a model of pandas / json / joblib / pathlib in which a "
+        "write is an event carrying the stored values and the target path and a read yields symbolic cells csv.<column>[row] / "
+        "json.<key>. From these values two tables are read off. Writer: slot -> (field of self, selector inside an element, "
+        "series/scalar). Reader: constructor field -> slots with selector, shape and the conversions wrapped around them. "
+        "Decided: W1 every column read is written, the written columns are understood, the set loader's column check equals the "
+        "written column order; W2 field -> slot -> field is the identity including tuple positions (partial_flux_1 <-> [0] ...); "
+        "W3 value/unit and value/type pairs are recombined and re-normalised (Permeance.convert to kg with the position's own "
+        "component, Composition.to_weight with the file's mixture); W4 side files: index, file name, component name and loader "
+        "filter agree, safe/unsafe variants are chosen symmetrically by the flag, JSON key sets are equal and key<->field "
+        "bijective; W5 a field written as a series is read as a series; W6 every write of ProcessModel.save targets the directory "
+        "created with exist_ok=False by _generate_process_path. Temporaries, helper functions, loops versus comprehensions and "
+        "dict comprehensions do not change the tables because they are read from values, not from syntax.")
 
-NUMERIC_HINT = ("temperature", "pressure", "mass", "flux", "permeance", "heat", "time", "composition")
-
-
-def module_list_constant(repo, module, name):
-    r = repo.resolve(module, name)
-    if isinstance(r, Const) and isinstance(r.node, ast.List):
-        return [e.value for e in r.node.elts if isinstance(e, ast.Constant)]
-    return None
+INL = {"Composition.first", "Composition.second"}
 
 
-def check_table_pair(ck, repo, cls_name, save_name, load_name, frame_var, numeric_series_fields, unit_note):
+def io_config(kinds=None):
+    c = Config(inline=lambda f: f.qualname in INL, str_domains={"*.units": UNITS, "*.type": ("weight", "molar")})
+    c.storage_kinds = dict(kinds or {})
+    return c
+
+
+def _domain_lookup(cfg):
+    def look(path):
+        d = cfg.str_domains.get(path)
+        if d is None and path.endswith("]"):
+            d = cfg.str_domains.get(path[:path.rfind("[")])
+        if d is None:
+            for k, v in cfg.str_domains.items():
+                if k.startswith("*") and path.endswith(k[1:]):
+                    return v
+        return d
+    return look
+
+
+def returns(outs):
+    return [o for o in outs if o.kind == "return"]
+
+
+def slot_sig(s):
+    return None if s is None else (s.field, s.selector, s.shape, s.const)
+
+
+# ----------------------------------------------------------------------------------------------------
+# csv tables
+# ----------------------------------------------------------------------------------------------------
+def writer_table(ck, repo, sv: FuncInfo, setup=None):
+    cfg = io_config()
+    outs = analyse(repo, sv, cfg, setup=setup, max_paths=2048)
+    ck.analysed["paths"] += len(outs)
+    rets = returns(outs)
+    ck.ob("W1", sv.qualname, "save completes on some path", sv.loc(), bool(rets))
+    table, order, kinds, where = None, None, {}, sv.loc()
+    look = _domain_lookup(cfg)
+    for o in rets:
+        evs = [e for e in o.events if e.kind == "to_csv"]
+        ck.ob("W1", sv.qualname, "exactly one table is written on every path", evs[0].where if evs else sv.loc(), len(evs) == 1,
+              found="%d to_csv calls" % len(evs))
+        if len(evs) != 1:
+            continue
+        fr = evs[0].data[0]
+        where = evs[0].where
+        names = list(fr.order) if fr.order is not None else list(fr.columns)
+        t = {}
+        for n in names:
+            s = writer_slot(fr.columns[n])
+            if s is not None and n in fr.scalar and s.shape == "series":
+                s = None
+            t[n] = s
+            kinds[("csv", n)] = slot_kind(look, fr.columns[n])
+        if table is None:
+            table, order = t, names
+        else:
+            same = order == names and all(slot_sig(table[n]) == slot_sig(t[n]) for n in names)
+            ck.ob("W1", sv.qualname, "the same table is written on every path", where, same)
+    if table is None:
+        raise AnalysisError("%s writes no table" % sv.qualname)
+    bad = [n for n in order if table[n] is None]
+    ck.ob("W1", sv.qualname, "every written column holds a field of the object (or a constant) itself", where, not bad,
+          lambda: "; ".join("%s <- %s" % (n, key_str(val_key(outs and rets[0] and [e for e in rets[0].events if e.kind == 'to_csv'][0].data[0].columns[n]))[:80])
+                            for n in bad))
+    ck.ob("W1", sv.qualname, "no column is written twice under one name", where, len(order) == len(set(order)))
+    return table, order, kinds, where
+
+
+def check_table_pair(ck, repo, cls_name, save_name, load_name, series_fields, scalar_fields, unit_note, load_setups):
     C = repo.find_class(cls_name)
     sv, ld = C.methods.get(save_name), C.methods.get(load_name)
     if sv is None or ld is None:
         raise AnalysisError("%s.%s / %s not found" % (cls_name, save_name, load_name))
     ck.analysed_function(sv)
     ck.analysed_function(ld)
-    w = WriterTable(sv)
-    r = ReaderTable(ld, frame_var, ctor_names=("cls", cls_name))
-    where_w, where_r = sv.loc(), ld.loc()
-    ck.ob("W1", sv.qualname, "every written column is understood", where_w, not w.unparsed,
-          "; ".join("%s <- %s" % (c, ast.unparse(v)[:60]) for c, v in w.unparsed))
-    declared = module_list_constant(repo, sv.module, w.order_constant) if w.order_constant else None
-    ck.ob("W1", sv.qualname, "written columns == declared column list %s" % w.order_constant, where_w,
-          declared is not None and set(declared) == set(w.columns) and len(declared) == len(set(declared)),
-          found="written %s; declared %s" % (sorted(w.columns), declared))
-    ck.floor("%s columns written" % cls_name, len(w.columns), 14)
-    if r.ctor is None:
-        ck.ob("W2", ld.qualname, "loader constructs the object from the frame", where_r, False)
-        return w, r
+    w, order, kinds, where_w = writer_table(ck, repo, sv)
+    ck.floor("%s columns written" % cls_name, len(order), 14)
+    where_r = ld.loc()
+    fields = {}
+    nobj = 0
+    results = []
+    for label, setup in load_setups:
+        outs = analyse(repo, ld, io_config(kinds), setup=setup, max_paths=4096)
+        ck.analysed["paths"] += len(outs)
+        for o in returns(outs):
+            v = o.value
+            if isinstance(v, ObjV) and v.constructed and v.cls.name == cls_name:
+                nobj += 1
+                results.append((label, o))
+                for f, x in v.fields.items():
+                    for r in reader_refs(x):
+                        fields.setdefault(f, {})[r.key()] = r
+    ck.ob("W2", ld.qualname, "loader constructs the object from the frame", where_r, nobj > 0)
+    if not nobj:
+        return w, order, fields, results
     read_cols = set()
-    for fld, refs in r.fields.items():
-        for col, path, shape in refs:
-            read_cols.add(col)
-            ck.ob("W1", ld.qualname, "column %s read by the loader is written by save" % col, where_r, col in w.columns)
-            if col not in w.columns:
+    for fld in sorted(fields):
+        for r in fields[fld].values():
+            if r.store != "csv" or "<arg>" in r.path:
                 continue
-            wf, wp, wshape, node = w.columns[col]
-            wf0 = wf.split(".")[0]
-            ok = wf0 == fld or (wf == "comments" and fld == "comments")
-            if wf.count(".") and wf0 == fld:
-                ok = True   # e.g. mixture.name -> mixture (looked up by name)
+            col, path, shape = r.slot, r.path, r.shape
+            read_cols.add(col)
+            ck.ob("W1", ld.qualname, "column %s read by the loader is written by save" % col, where_r, col in w,
+                  "the loader reads a column that save never writes")
+            if col not in w or w[col] is None:
+                continue
+            s = w[col]
+            wf0 = s.field.split(".")[0]
+            ok = wf0 == fld
             ck.ob("W2", ld.qualname, "field %s is read back from the column its own data was written to (%s)" % (fld, col), where_r, ok,
-                  "column %s is written from self.%s%s but read into %s%s" % (col, wf, wp, fld, path),
-                  expected="self.%s" % fld, found="self.%s" % wf, sample=True)
+                  "column %s is written from self.%s%s but read into %s%s" % (col, s.field, s.selector, fld, path),
+                  expected="self.%s" % fld, found="self.%s" % s.field, sample=True)
             if not ok:
                 continue
-            p_r, p_w = norm_path(path), norm_path(wp)
+            wsel = s.selector if "." not in s.field else "." + s.field.split(".", 1)[1] + s.selector
+            p_r, p_w = path.replace(".first", ".p"), wsel.replace(".first", ".p")
+            if fld == "mixture":
+                # written as mixture.name, read back through the registry look-up by that name
+                ck.ob("W2", ld.qualname, "the mixture is written by name and looked up by that name", where_r, p_w == ".name", found=p_w)
+                continue
             if col == "units":
                 okp = p_w.endswith(".units") and p_r.endswith(".units")
-                ck.ob("W3", ld.qualname, "units column labels the permeances of %s%s" % (fld, path), where_r, okp,
-                      unit_note)
+                ck.ob("W3", ld.qualname, "units column labels the permeances of %s%s" % (fld, path), where_r, okp, unit_note)
                 continue
             ck.ob("W2", ld.qualname, "position / attribute agreement for %s: written from %s, read into %s" % (col, p_w or "<element>", p_r or "<element>"),
-                  where_r, p_r == p_w, "the loader puts column %s at %s%s but save took it from %s%s" % (col, fld, p_r, wf, p_w),
+                  where_r, p_r == p_w, "the loader puts column %s at %s%s but save took it from %s%s" % (col, fld, p_r, s.field, p_w),
                   expected=p_w, found=p_r)
-            if wshape == "series" and fld in numeric_series_fields:
-                ck.ob("W5", ld.qualname, "field %s is written as a series and read back as a series" % fld, where_r, shape in ("series",),
-                      "save writes one value per step; the loader binds %s" % ("a single value (.iloc[0])" if shape == "scalar" else shape))
-    for col, (wf, wp, wshape, node) in w.columns.items():
-        if wf == "<constant>":
+            if s.shape == "series" and fld in series_fields:
+                ck.ob("W5", ld.qualname, "field %s is written as a series and read back as a series" % fld, where_r, shape == "series",
+                      "save writes one value per step; the loader binds %s" % ("a single value (row 0)" if shape in ("scalar", "series-const") else shape))
+    for col in order:
+        s = w[col]
+        if s is None or s.field == "<constant>":
             continue
         if col not in read_cols:
             ck.note("%s: column %s is written but not read back by %s" % (cls_name, col, ld.qualname))
-    for fld in numeric_series_fields:
-        ck.ob("W2", ld.qualname, "persisted field %s is restored" % fld, where_r, bool(r.fields.get(fld)),
+    for fld in series_fields + scalar_fields:
+        ck.ob("W2", ld.qualname, "persisted field %s is restored" % fld, where_r, bool(fields.get(fld)),
               "the loader does not rebuild this field from the frame")
-    return w, r
+    check_recombination(ck, ld, fields)
+    return w, order, fields, results
 
 
-def check_recombination(ck, repo, ld: FuncInfo, r: ReaderTable):
-    """W3: Permeance(value, units).convert(kg, own component); Composition(p, type).to_weight"""
-    src_nodes = []
-    for fld in ("permeances",):
-        node = r.field_nodes.get(fld)
-        if node is None:
-            continue
-        if isinstance(node, ast.Name):
-            for kind, d in r._local_defs(node.id):
-                if kind == "append":
-                    src_nodes.append(d)
-        else:
-            src_nodes.append(node)
+def check_recombination(ck, ld: FuncInfo, fields):
+    """W3: Permeance(value, units).convert(kg, own component); Composition(p, type).to_weight(file's mixture)"""
     n = 0
-    for d in src_nodes:
-        if isinstance(d, ast.Tuple) and len(d.elts) == 2:
-            for i, e in enumerate(d.elts):
-                n += 1
-                comp = "first_component" if i == 0 else "second_component"
-                s = ast.unparse(e)
-                ok = isinstance(e, ast.Call) and isinstance(e.func, ast.Attribute) and e.func.attr == "convert" and \
-                    ("kg_m2_h_kPa" in s) and ("component=mixture.%s" % comp in s.replace(" ", "") or "mixture.%s" % comp in s)
-                other = "second_component" if i == 0 else "first_component"
-                ok = ok and ("mixture.%s" % other) not in s
-                ck.ob("W3", ld.qualname, "loaded permeance %d is converted to kg/(m2 h kPa) with the %s" % (i + 1, comp.replace("_", " ")), ld.loc(e), ok,
-                      found=s[:200])
+    for r in fields.get("permeances", {}).values():
+        m = re.match(r"^\[(\d)\]\.value$", r.path)
+        if not m or r.store != "csv":
+            continue
+        n += 1
+        i = int(m.group(1))
+        comp = "first_component" if i == 0 else "second_component"
+        other = "second_component" if i == 0 else "first_component"
+        ws = [x for x in r.wrappers if x[0] == "Permeance.convert"]
+        ok = len(ws) == 1 and len(r.wrappers) == 1
+        found = str(r.wrappers)[:240]
+        if ok:
+            args = ws[0][1]
+            ok = len(args) == 2 and args[0] == repr(KG) and comp in args[1] and other not in args[1] and "csv.mixture" in args[1]
+        ck.ob("W3", ld.qualname, "loaded permeance %d is converted to kg/(m2 h kPa) with the %s of the stored mixture" % (i + 1, comp.replace("_", " ")),
+              ld.loc(), ok, found=found)
     ck.floor("permeance recombinations in %s" % ld.qualname, n, 2)
     for fld in ("feed_compositions", "permeate_composition"):
-        node = r.field_nodes.get(fld)
-        if node is None:
+        refs = [r for r in fields.get(fld, {}).values() if r.store == "csv" and "<arg>" not in r.path]
+        if not refs:
             continue
-        s = ast.unparse(node)
-        ck.ob("W3", ld.qualname, "%s are re-loaded as mass fractions (value and type recombined, then to_weight)" % fld, ld.loc(node),
-              "Composition(" in s and "to_weight(" in s and "type=" in s, found=s[:200])
+        paths = {r.path for r in refs}
+        ok = {".p", ".type"} <= paths
+        for r in refs:
+            ws = r.wrappers
+            ok = ok and len(ws) == 1 and ws[0][0] == "Composition.to_weight" and len(ws[0][1]) == 1 and "csv.mixture" in ws[0][1][0]
+        ck.ob("W3", ld.qualname, "%s are re-loaded as mass fractions (value and type recombined, then to_weight with the stored mixture)" % fld, ld.loc(),
+              ok, found="; ".join("%s%s %s" % (r.slot, r.path, list(r.wrappers)) for r in refs)[:300])
 
 
-def check_json_pair(ck, repo, cls_name, field_of_key):
+def _lits(k, out):
+    if isinstance(k, str) and k.startswith("('lit',"):
+        import ast as _ast
+        try:
+            t = _ast.literal_eval(k)
+        except (ValueError, SyntaxError):
+            return
+        _lits(t, out)
+        return
+    if isinstance(k, tuple):
+        if k and k[0] == "lit" and all(isinstance(x, str) for x in k[1:]):
+            out.append(list(k[1:]))
+        for x in k:
+            _lits(x, out)
+
+
+def check_set_loader(ck, repo, order):
+    sl = repo.find_function("DiffusionCurveSet.load")
+    ck.analysed_function(sl)
+    outs = analyse(repo, sl, io_config())
+    ck.analysed["paths"] += len(outs)
+    lists = []
+    raised = False
+    for o in outs:
+        for c, d in o.trace:
+            if "csv.columns" in full_text(c):
+                _lits(c, lists)
+                if o.kind == "raise":
+                    raised = True
+    ok = bool(lists) and all(l == order for l in lists) and raised
+    ck.ob("W1", sl.qualname, "the set loader rejects a file whose columns differ from the columns DiffusionCurve.save writes, in that order", sl.loc(), ok,
+          found="checked against %s; written %s" % (lists[:1], order))
+    calls = [c for o in returns(outs) for c in o.calls if c.callee.qualname == "DiffusionCurve.from_frame"]
+    okc = bool(calls) and all(isinstance(c.bound.get("data"), FrameV) and "groupby(curve_id)" in c.bound["data"].name for c in calls)
+    ck.ob("W1", sl.qualname, "every curve_id group of the file is handed to DiffusionCurve.from_frame", sl.loc(), okc,
+          found="; ".join(repr(c.bound.get("data"))[:80] for c in calls[:2]))
+
+
+# ----------------------------------------------------------------------------------------------------
+# json pairs
+# ----------------------------------------------------------------------------------------------------
+def check_json_pair(ck, repo, cls_name, exempt):
     C = repo.find_class(cls_name)
     sv, ld = C.methods.get("safe_save"), C.methods.get("safe_load")
     if sv is None or ld is None:
         raise AnalysisError("%s.safe_save / safe_load not found" % cls_name)
     ck.analysed_function(sv)
     ck.analysed_function(ld)
-    written = dict_literal_keys(sv, "json_dict")
-    reads = json_reads(ld, "json_object")
-    ck.ob("W4", sv.qualname, "JSON keys written == JSON keys read", sv.loc(), set(written) == set(reads) and bool(written),
-          found="written %s; read %s" % (sorted(written), sorted(reads)))
-    # key -> field on the writer side
-    wmap = {}
-    for k, v in written.items():
-        e = v
-        if isinstance(e, ast.Call) and isinstance(e.func, ast.Name) and e.func.id in ("list", "float", "int", "str") and e.args:
-            e = e.args[0]
-        wmap[k] = self_attr_chain(e)
-    # key -> constructor keyword path on the reader side
+    cfg = io_config()
+    outs = analyse(repo, sv, cfg)
+    ck.analysed["paths"] += len(outs)
+    look = _domain_lookup(cfg)
+    wmap, kinds = None, {}
+    for o in returns(outs):
+        evs = [e for e in o.events if e.kind == "json.dump"]
+        ck.ob("W4", sv.qualname, "one JSON document is written on every path", evs[0].where if evs else sv.loc(), len(evs) == 1)
+        if len(evs) != 1:
+            continue
+        obj, fp, fpdesc = evs[0].data
+        ck.ob("W4", sv.qualname, "the JSON document goes to the caller's path, opened for writing", evs[0].where,
+              bool(re.match(r"^open\(path, w[bt]?\)$", fpdesc)), found=fpdesc)
+        ck.ob("W4", sv.qualname, "the JSON document is a mapping with constant keys", evs[0].where, isinstance(obj, DictV))
+        if not isinstance(obj, DictV):
+            continue
+        m = {}
+        for k, v in obj.items.items():
+            s = writer_slot(v)
+            m[k] = None if s is None or s.field == "<constant>" else (s.field + s.selector)
+            kk = slot_kind(look, v)
+            if isinstance(v, ListV):
+                kk = ("list", None)
+            kinds[("json", k)] = kk
+        if wmap is None:
+            wmap = m
+        else:
+            ck.ob("W4", sv.qualname, "the same keys are written on every path", evs[0].where, m == wmap)
+    if wmap is None:
+        raise AnalysisError("%s writes no JSON document" % sv.qualname)
+    outs = analyse(repo, ld, io_config(kinds))
+    ck.analysed["paths"] += len(outs)
     rmap = {}
-    ctor = None
-    for n in ast.walk(ld.node):
-        if isinstance(n, ast.Return) and isinstance(n.value, ast.Call):
-            ctor = n.value
-
-    def walk_ctor(call, prefix):
-        for kw in call.keywords:
-            v = kw.value
-            if isinstance(v, ast.Call) and isinstance(v.func, ast.Name) and v.keywords:
-                walk_ctor(v, prefix + kw.arg + ".")
-            else:
-                for n in ast.walk(v):
-                    if isinstance(n, ast.Subscript) and isinstance(n.value, ast.Name) and n.value.id == "json_object" and isinstance(n.slice, ast.Constant):
-                        rmap[n.slice.value] = prefix + kw.arg
-    if ctor is not None:
-        walk_ctor(ctor, "")
+    read_keys = set()
+    nobj = 0
+    for o in returns(outs):
+        for e in o.events:
+            if e.kind == "json-read":
+                read_keys.add(e.data[1])
+        opens = [e for e in o.events if e.kind == "json.load"]
+        ck.ob("W4", ld.qualname, "the JSON document is read from the caller's path", opens[0].where if opens else ld.loc(),
+              len(opens) == 1 and bool(re.match(r"^open\(path(, r[bt]?)?\)$", opens[0].data)), found=opens[0].data if opens else "no json.load")
+        v = o.value
+        if isinstance(v, ObjV) and v.constructed and v.cls.name == cls_name:
+            nobj += 1
+            for f, x in v.fields.items():
+                for r in reader_refs(x):
+                    if r.store == "json":
+                        rmap.setdefault(r.slot, set()).add(f + r.path)
+    ck.ob("W4", ld.qualname, "loader constructs a %s" % cls_name, ld.loc(), nobj > 0)
+    ck.ob("W4", sv.qualname, "JSON keys written == JSON keys read", sv.loc(), set(wmap) == read_keys and bool(wmap),
+          found="written %s; read %s" % (sorted(wmap), sorted(read_keys)))
     for k in sorted(set(wmap) | set(rmap)):
-        a, b = wmap.get(k), rmap.get(k)
-        ck.ob("W4", ld.qualname, "JSON key %r is written from and restored to the same field" % k, ld.loc(), a is not None and a == b,
-              expected=str(a), found=str(b), sample=(k == "alpha"))
+        a, b = wmap.get(k), rmap.get(k, set())
+        ck.ob("W4", ld.qualname, "JSON key %r is written from and restored to the same field" % k, ld.loc(), a is not None and b == {a},
+              expected=str(a), found=str(sorted(b)), sample=(k == "alpha"))
     fields = [f.name for f in C.fields]
-    persisted = set(x.split(".")[0] for x in wmap.values() if x)
-    missing = [f for f in fields if f not in persisted and f not in field_of_key]
-    ck.ob("W4", sv.qualname, "every field of %s is persisted (documented exceptions: %s)" % (cls_name, ", ".join(sorted(field_of_key)) or "none"),
+    persisted = set(x.split(".")[0].split("[")[0] for x in wmap.values() if x)
+    missing = [f for f in fields if f not in persisted and f not in exempt]
+    ck.ob("W4", sv.qualname, "every field of %s is persisted (documented exceptions: %s)" % (cls_name, ", ".join(sorted(exempt)) or "none"),
           sv.loc(), not missing, "not persisted: %s" % missing)
+
+
+def check_binary_pair(ck, repo):
+    PF = repo.find_class("PervaporationFunction")
+    sv, ld = PF.methods["save"], PF.methods["load"]
+    ck.analysed_function(sv)
+    ck.analysed_function(ld)
+    outs = analyse(repo, sv, io_config())
+    ck.analysed["paths"] += len(outs)
+    ok = bool(returns(outs))
+    found = ""
+    for o in returns(outs):
+        evs = [e for e in o.events if e.kind == "joblib.dump"]
+        good = len(evs) == 1 and isinstance(evs[0].data[0], ObjV) and evs[0].data[0].path == "self" and evs[0].data[2] == "path"
+        found = "; ".join("dump(%s, %s)" % (key_str(val_key(e.data[0]))[:60], e.data[2]) for e in evs)
+        ok = ok and good
+    ck.ob("W4", sv.qualname, "binary save dumps the object itself to the caller's path", sv.loc(), ok, found=found)
+    outs = analyse(repo, ld, io_config())
+    ck.analysed["paths"] += len(outs)
+    rets = returns(outs)
+    ok = bool(rets) and all(isinstance(o.value, Opaque) and o.value.desc == "joblib.load(path)" for o in rets)
+    ck.ob("W4", ld.qualname, "binary load returns what joblib loads from the caller's path", ld.loc(), ok,
+          found="; ".join(repr(o.value)[:80] for o in rets))
+
+
+# ----------------------------------------------------------------------------------------------------
+# side files of a process model and the fresh directory
+# ----------------------------------------------------------------------------------------------------
+WRITE_METHODS = ("write_text", "write_bytes", "to_json", "to_pickle", "savetxt", "write", "touch", "rename", "replace", "unlink", "rmdir")
 
 
 def check_side_files(ck, repo):
     PM = repo.find_class("ProcessModel")
     sv, ld = PM.methods["save"], PM.methods["load"]
-    # writer: self.permeance_fits[i].<save|safe_save>(process_path / f"pervaporation_function_<i>_...")
-    calls = []
-    for n in ast.walk(sv.node):
-        if isinstance(n, ast.Call) and isinstance(n.func, ast.Attribute) and n.func.attr in ("save", "safe_save"):
-            recv = ast.unparse(n.func.value)
-            if recv.startswith("self.permeance_fits["):
-                idx = recv[len("self.permeance_fits["):-1]
-                arg = ast.unparse(n.args[0]) if n.args else ""
-                calls.append((n, idx, n.func.attr, arg))
-    ck.floor("fit side-file writes", len(calls), 4)
-    for n, idx, meth, arg in calls:
-        ck.ob("W4", sv.qualname, "fit %s is written to the file named pervaporation_function_%s_*" % (idx, idx), sv.loc(n),
-              ("pervaporation_function_%s_" % idx) in arg, found=arg[:120])
-        comp = "first_component" if idx == "0" else "second_component"
-        ck.ob("W4", sv.qualname, "file name of fit %s carries the %s's name" % (idx, comp.replace("_", " ")), sv.loc(n), ("self.mixture.%s.name" % comp) in arg,
-              found=arg[:160])
-    # is_safe symmetry
-    for f, safe_names, unsafe_names in ((sv, ("safe_save",), ("save", "dump")), (ld, ("safe_load",), ("load",))):
-        for n in ast.walk(f.node):
-            if isinstance(n, ast.If) and isinstance(n.test, ast.Name) and n.test.id == "is_safe":
-                body_calls = {c.func.attr for st in n.body for c in ast.walk(st) if isinstance(c, ast.Call) and isinstance(c.func, ast.Attribute)}
-                else_calls = {c.func.attr for st in n.orelse for c in ast.walk(st) if isinstance(c, ast.Call) and isinstance(c.func, ast.Attribute)}
-                ck.ob("W4", f.qualname, "is_safe selects the JSON variant, otherwise the binary one", f.loc(n),
-                      bool(body_calls & set(safe_names)) and not (else_calls & set(safe_names)) and bool(else_calls & set(unsafe_names))
-                      and not (body_calls & {"dump"}), found="if is_safe: %s else: %s" % (sorted(body_calls), sorted(else_calls)))
-    # loader: filters and tuple order
-    filt = {}
-    for n in ast.walk(ld.node):
-        if isinstance(n, ast.Assign) and isinstance(n.targets[0], ast.Name) and "startswith" in ast.unparse(n.value):
-            for c in ast.walk(n.value):
-                if isinstance(c, ast.Call) and isinstance(c.func, ast.Attribute) and c.func.attr == "startswith" and c.args and isinstance(c.args[0], ast.Constant):
-                    filt[n.targets[0].id] = c.args[0].value
-    pv = {}
-    for n in ast.walk(ld.node):
-        if isinstance(n, ast.Assign) and isinstance(n.targets[0], ast.Name) and isinstance(n.value, ast.Call) and \
-                ast.unparse(n.value.func).split(".")[-1] in ("load", "safe_load") and n.value.args:
-            a = ast.unparse(n.value.args[0])
-            for var, prefix in filt.items():
-                if a.startswith(var):
-                    pv.setdefault(n.targets[0].id, set()).add(prefix)
-    ctor = [n.value for n in ast.walk(ld.node) if isinstance(n, ast.Return) and isinstance(n.value, ast.Call)]
-    okk = False
-    found = ""
-    if ctor:
-        for kw in ctor[0].keywords:
-            if kw.arg == "permeance_fits":
-                tup = kw.value.body if isinstance(kw.value, ast.IfExp) else kw.value
-                if isinstance(tup, ast.Tuple) and len(tup.elts) == 2 and all(isinstance(e, ast.Name) for e in tup.elts):
-                    p0, p1 = pv.get(tup.elts[0].id, set()), pv.get(tup.elts[1].id, set())
-                    okk = p0 == {"pervaporation_function_0"} and p1 == {"pervaporation_function_1"}
-                    found = "(%s <- %s, %s <- %s)" % (tup.elts[0].id, sorted(p0), tup.elts[1].id, sorted(p1))
-    ck.ob("W4", ld.qualname, "permeance_fits = (file pervaporation_function_0*, file pervaporation_function_1*)", ld.loc(), okk, found=found)
-    # initial conditions file
-    ssrc, lsrc = ast.unparse(sv.node), ast.unparse(ld.node)
-    ck.ob("W4", sv.qualname, "initial conditions are written to and read from the same file name", sv.loc(),
-          "initial_conditions.ic" in ssrc and "initial_conditions.ic" in lsrc)
-
-
-def check_fresh_directory(ck, repo):
-    PM = repo.find_class("ProcessModel")
     gen = PM.methods.get("_generate_process_path")
-    sv = PM.methods["save"]
+    ck.ob("W6", "ProcessModel", "process directory generator exists", PM.module.relpath, gen is not None)
     if gen is None:
-        ck.ob("W6", "ProcessModel", "process directory generator exists", PM.module.relpath, False)
         return
     ck.analysed_function(gen)
-    rets = [n.value for n in ast.walk(gen.node) if isinstance(n, ast.Return)]
-    ok = False
-    found = ""
-    if len(rets) == 1 and isinstance(rets[0], ast.Name):
-        var = rets[0].id
-        mk = [n for n in ast.walk(gen.node) if isinstance(n, ast.Call) and isinstance(n.func, ast.Attribute) and n.func.attr == "mkdir"
-              and isinstance(n.func.value, ast.Name) and n.func.value.id == var]
-        found = "; ".join(ast.unparse(m) for m in mk)
-        ok = len(mk) == 1 and any(k.arg == "exist_ok" and isinstance(k.value, ast.Constant) and k.value.value is False for k in mk[0].keywords)
-        # the returned path must not be re-assigned after the mkdir
-    ck.ob("W6", gen.qualname, "the returned directory is created with exist_ok=False (an existing directory is never reused)", gen.loc(), ok, found=found)
-    # every write in save targets a path under the generated directory
-    pvar = None
-    for n in ast.walk(sv.node):
-        if isinstance(n, ast.Assign) and isinstance(n.targets[0], ast.Name) and isinstance(n.value, ast.Call) and \
-                ast.unparse(n.value.func).endswith("_generate_process_path"):
-            pvar = n.targets[0].id
-    ck.ob("W6", sv.qualname, "save obtains its directory from the generator", sv.loc(), pvar is not None)
-    writes = []
-    for n in ast.walk(sv.node):
-        if isinstance(n, ast.Call) and isinstance(n.func, ast.Attribute) and n.func.attr in ("to_csv", "dump", "save", "safe_save", "write", "to_json", "to_pickle", "savetxt", "write_text"):
-            if n.func.attr == "dump":
-                target = n.args[1] if len(n.args) > 1 else None
+    # W6a: the generator returns a directory it created itself with exist_ok=False
+    outs = analyse(repo, gen, io_config())
+    ck.analysed["paths"] += len(outs)
+    rets = returns(outs)
+    ok = bool(rets)
+    found = []
+    for o in rets:
+        rd = o.value.desc if isinstance(o.value, Opaque) else None
+        mk = [e for e in o.events if e.kind == "opaque-call" and e.data[0].endswith(".mkdir") and e.data[0][:-6] == rd]
+        good = False
+        for e in mk:
+            x = e.data[2].get("exist_ok")
+            good = good or (isinstance(x, BoolV) and x.b is False) or x is None
+            found.append("%s(exist_ok=%s)" % (e.data[0][-40:], getattr(x, "b", "default")))
+        later = [e for e in o.events if e.kind == "opaque-call" and e.data[0].endswith(".mkdir") and e.data[0][:-6] == rd
+                 and isinstance(e.data[2].get("exist_ok"), BoolV) and e.data[2]["exist_ok"].b is not False]
+        ok = ok and good and not later
+    ck.ob("W6", gen.qualname, "the returned directory is created with exist_ok=False (an existing directory is never reused)", gen.loc(), ok,
+          found="; ".join(found)[:200])
+    # W6b / W4: every write of save goes into the generated directory; side files agree with the flag
+    nwrites = 0
+    for safe in (True, False):
+        label = "is_safe=%s" % safe
+        outs = analyse(repo, sv, io_config(), setup=lambda ev, s=safe: {"is_safe": BoolV(s)}, max_paths=2048)
+        ck.analysed["paths"] += len(outs)
+        rets = returns(outs)
+        ck.ob("W4", sv.qualname, "save completes [%s]" % label, sv.loc(), bool(rets))
+        for o in rets:
+            gens = [c for c in o.calls if c.callee.qualname == gen.qualname and not c.inlined]
+            ck.ob("W6", sv.qualname, "save obtains its directory from the generator exactly once", sv.loc(), len(gens) == 1, found="%d calls" % len(gens))
+            if len(gens) != 1:
+                continue
+            gd = gens[0].result.desc if isinstance(gens[0].result, Opaque) else "?"
+            prefix = "(" + gd + " / "
+            me = o.env.get("self")
+            fits = me.fields.get("permeance_fits") if isinstance(me, ObjV) else None
+            writes = []   # (kind, where, target description, receiver, extra)
+            for e in o.events:
+                if e.kind == "to_csv":
+                    writes.append(("table", e.where, e.data[2], None))
+                elif e.kind == "joblib.dump":
+                    writes.append(("joblib.dump", e.where, e.data[2], e.data[0]))
+                elif e.kind == "json.dump":
+                    writes.append(("json.dump", e.where, e.data[2], e.data[0]))
+                elif e.kind == "open" and not e.data[1].startswith("r"):
+                    writes.append(("open", e.where, e.data[0], None))
+                elif e.kind == "opaque-call" and e.data[0].rsplit(".", 1)[-1] in WRITE_METHODS:
+                    writes.append((e.data[0].rsplit(".", 1)[-1], e.where, e.data[0].rsplit(".", 1)[0], None))
+            for c in o.calls:
+                if c.inlined:
+                    continue
+                q = c.callee.qualname
+                if q.endswith((".save", ".safe_save")) and "path" in c.bound:
+                    p = c.bound["path"]
+                    writes.append((q, c.where, p.desc if isinstance(p, Opaque) else key_str(val_key(p)), c.bound.get("self")))
+            nwrites += len(writes)
+            for kind, where, target, recv in writes:
+                ck.ob("W6", sv.qualname, "write %s goes into the freshly created process directory [%s]" % (kind, label), where,
+                      target.lstrip("(").startswith(prefix.lstrip("(")) or target.startswith(prefix), found=target[:160])
+            # fits
+            fit_writes = [w for w in writes if w[0].startswith("PervaporationFunction.")]
+            want = "PervaporationFunction.safe_save" if safe else "PervaporationFunction.save"
+            ck.ob("W4", sv.qualname, "both fitted functions are written, with the %s variant [%s]" % ("JSON" if safe else "binary", label), sv.loc(),
+                  len(fit_writes) == 2 and all(w[0] == want for w in fit_writes), found="; ".join(w[0] for w in fit_writes))
+            seen_idx = set()
+            for kind, where, target, recv in fit_writes:
+                idx = None
+                if isinstance(recv, ObjV) and recv.path is not None:
+                    m = re.match(r"^self\.permeance_fits\[(\d)\]$", recv.path)
+                    idx = int(m.group(1)) if m else None
+                elif isinstance(fits, TupV):
+                    for i, x in enumerate(fits.items):
+                        if x is recv:
+                            idx = i
+                ck.ob("W4", sv.qualname, "a written function is one of self.permeance_fits [%s]" % label, where, idx is not None,
+                      found=key_str(val_key(recv))[:120] if recv is not None else "?")
+                if idx is None:
+                    continue
+                seen_idx.add(idx)
+                comp = "first_component" if idx == 0 else "second_component"
+                ck.ob("W4", sv.qualname, "fit %d is written to the file named pervaporation_function_%d_* [%s]" % (idx, idx, label), where,
+                      ("pervaporation_function_%d_" % idx) in target, found=target[-120:])
+                ck.ob("W4", sv.qualname, "file name of fit %d carries the %s's name [%s]" % (idx, comp.replace("_", " "), label), where,
+                      ("self.mixture.%s.name" % comp) in target, found=target[-160:])
+            ck.ob("W4", sv.qualname, "fits 0 and 1 are both written [%s]" % label, sv.loc(), seen_idx == {0, 1} or len(fit_writes) != 2)
+            # initial conditions
+            ic = [w for w in writes if "initial_conditions.ic" in w[2]]
+            if safe:
+                okic = len(ic) == 1 and ic[0][0] == "Conditions.safe_save" and isinstance(ic[0][3], ObjV) and ic[0][3].path == "self.initial_conditions"
             else:
-                target = n.args[0] if n.args else None
-            writes.append((n, target))
-        if isinstance(n, ast.Call) and isinstance(n.func, ast.Name) and n.func.id == "open":
-            writes.append((n, n.args[0] if n.args else None))
-    ck.floor("write calls in ProcessModel.save", len(writes), 6)
-    for n, target in writes:
-        s = ast.unparse(target) if target is not None else ""
-        names = {x.id for x in ast.walk(target) if isinstance(x, ast.Name)} if target is not None else set()
-        ck.ob("W6", sv.qualname, "write %s goes into the freshly created process directory" % ast.unparse(n.func), sv.loc(n),
-              pvar is not None and pvar in names and s.lstrip("(").startswith(pvar), found=s[:120])
-    reassigned = [n for n in ast.walk(sv.node) if isinstance(n, ast.Assign) and any(isinstance(t, ast.Name) and t.id == pvar for t in n.targets)]
-    ck.ob("W6", sv.qualname, "the process directory variable is assigned once", sv.loc(), len(reassigned) == 1)
+                okic = len(ic) == 1 and ic[0][0] == "joblib.dump" and key_str(val_key(ic[0][3])).find("self.initial_conditions") >= 0
+            ck.ob("W4", sv.qualname, "initial conditions are written to initial_conditions.ic with the %s variant [%s]" % ("JSON" if safe else "binary", label),
+                  sv.loc(), okic, found="; ".join("%s -> %s" % (w[0], w[2][-60:]) for w in ic))
+    ck.floor("write calls in ProcessModel.save", nwrites, 8)
+
+
+def check_side_file_loading(ck, ld, results):
+    for label, o in results:
+        safe = "True" in label
+        v = o.value
+        fits = v.fields.get("permeance_fits")
+        if isinstance(fits, MaybeV) or fits is NONE:
+            fits = None
+        okk = isinstance(fits, TupV) and len(fits.items) == 2
+        found = ""
+        if okk:
+            for i, x in enumerate(fits.items):
+                k = value_text(x)
+                found += "[%d] %s; " % (i, k[:200])
+                want = "PervaporationFunction.safe_load" if safe else "PervaporationFunction.load"
+                okk = okk and want + "⟨" in k and ("pervaporation_function_%d" % i) in k and ("pervaporation_function_%d" % (1 - i)) not in k
+                if not safe:
+                    okk = okk and "safe_load" not in k
+        ck.ob("W4", ld.qualname, "permeance_fits = (file pervaporation_function_0*, file pervaporation_function_1*) loaded with the %s variant [%s]"
+              % ("JSON" if safe else "binary", label), ld.loc(), okk, found=found[:400])
+        ic = v.fields.get("initial_conditions")
+        if ic is None or ic is NONE or isinstance(ic, NoneV):
+            continue   # the path on which no conditions file exists
+        k = value_text(ic)
+        if safe:
+            okic = "Conditions.safe_load⟨" in k and "initial_conditions.ic" in k
+        else:
+            okic = "joblib.load(" in k and "initial_conditions.ic" in k and "safe_load" not in k
+        ck.ob("W4", ld.qualname, "initial conditions are read from initial_conditions.ic with the %s variant [%s]" % ("JSON" if safe else "binary", label),
+              ld.loc(), okic, found=k[:200])
 
 
 def run(ck):
     repo = ck.repo
     ck.explanation = EXPL
-    ck.technique = "writer/reader table extraction from the syntax tree and set/bijection comparison"
+    ck.technique = ("normal-form evaluation of the save/load code over a model of pandas/json/joblib/pathlib; writer/reader table extraction "
+                    "from the computed values; set/bijection comparison")
     ck.undecided("1e-9 numeric fidelity of CSV / JSON / joblib (library behaviour); the collision rate of the 4-character directory suffix "
                  "(a collision raises FileExistsError because of exist_ok=False, it never overwrites)")
     pm_series = ["feed_temperature", "feed_compositions", "permeate_composition", "permeate_temperature", "permeate_pressure", "feed_mass",
                  "partial_fluxes", "permeances", "time", "feed_evaporation_heat", "permeate_condensation_heat"]
     note = ("one units column is written from the first permeance and applied to both: sound because every permeance of a curve / model "
             "is exposed in kg/(m2 h kPa) (C09-V3, C05-N2, C12-M2)")
-    w, r = check_table_pair(ck, repo, "ProcessModel", "save", "load", "process_frame", pm_series, note)
-    check_recombination(ck, repo, repo.find_function("ProcessModel.load"), r)
+    setups = [("is_safe=True", lambda ev: {"is_safe": BoolV(True)}), ("is_safe=False", lambda ev: {"is_safe": BoolV(False)})]
+    w, order, fields, results = check_table_pair(ck, repo, "ProcessModel", "save", "load", pm_series, ["membrane_name", "mixture"], note, setups)
+    ck.floor("ProcessModel.load result paths", len(results), 2)
+    check_side_file_loading(ck, repo.find_function("ProcessModel.load"), results)
     dc_series = ["feed_compositions", "partial_fluxes", "permeances"]
-    w2, r2 = check_table_pair(ck, repo, "DiffusionCurve", "save", "from_frame", "data", dc_series, note)
-    check_recombination(ck, repo, repo.find_function("DiffusionCurve.from_frame"), r2)
-    for fld in ("feed_temperature", "permeate_temperature", "permeate_pressure", "membrane_name", "mixture"):
-        ck.ob("W2", "DiffusionCurve.from_frame", "scalar field %s is restored" % fld, repo.find_function("DiffusionCurve.from_frame").loc(),
-              bool(r2.fields.get(fld)))
-    # set loader checks the column list
-    sl = repo.find_function("DiffusionCurveSet.load")
-    ck.analysed_function(sl)
-    ck.ob("W1", sl.qualname, "the set loader compares the file's columns with the declared column list", sl.loc(),
-          "DC_SET_COLUMNS" in ast.unparse(sl.node) and "from_frame" in ast.unparse(sl.node))
+    dc_scalar = ["feed_temperature", "permeate_temperature", "permeate_pressure", "membrane_name", "mixture"]
+    w2, order2, fields2, _ = check_table_pair(ck, repo, "DiffusionCurve", "save", "from_frame", dc_series, dc_scalar, note,
+                                             [("", lambda ev: {"data": FrameV("read", "csv")})])
+    check_set_loader(ck, repo, order2)
     check_json_pair(ck, repo, "PervaporationFunction", {})
     check_json_pair(ck, repo, "Conditions", {"temperature_program": "documented: the temperature programme is not persisted in JSON"})
-    PF = repo.find_class("PervaporationFunction")
-    s1, l1 = ast.unparse(PF.methods["save"].node), ast.unparse(PF.methods["load"].node)
-    ck.ob("W4", "PervaporationFunction.save", "binary save dumps the object itself and load returns what joblib loads", PF.methods["save"].loc(),
-          "joblib.dump(self, path)" in s1 and "return joblib.load(path)" in l1)
+    check_binary_pair(ck, repo)
     check_side_files(ck, repo)
-    check_fresh_directory(ck, repo)
     ck.exhaustive = True
     ck.assume("pandas / json / joblib round-trip the values they are given")
